@@ -55,7 +55,7 @@ type c19Case struct {
 }
 
 var ipamOps = []string{"filter", "bind", "schedule", "schedule", "update", "delete", "resync", "syncips", "list", "release", "pool", "reload", "gather", "preempt"}
-var galaxyOps = []string{"add", "add", "del", "policy_event", "policy_sync", "pod_event", "pm_open", "pm_setup", "pm_clean", "pm_sync"}
+var galaxyOps = []string{"add", "add", "del", "policy_event", "policy_sync", "pod_event", "pm_open", "pm_close", "pm_setup", "pm_clean", "pm_sync"}
 
 func genC19() *rapid.Generator[c19Case] {
 	return rapid.Custom(func(t *rapid.T) c19Case {
@@ -352,9 +352,17 @@ func runGalaxy(c *c19Case) *overlapTracker {
 				_ = sim.PM.DeletePod(p.ToK8s())
 			}
 		case "pm_open":
+			// a pod with a (random) host port comes and goes a few times, as its ADD / DEL requests do
 			name := fmt.Sprintf("pmpod%d_ns", wi)
-			if err := pm.OpenHostports(name, true, []k8s.Port{{HostPort: 0, ContainerPort: 80, Protocol: "tcp", PodName: name, PodIP: "172.16.5.9"}}); err == nil {
-				pm.CloseHostports(name)
+			for k := 0; k < 6; k++ {
+				if err := pm.OpenHostports(name, true, []k8s.Port{{HostPort: 0, ContainerPort: 80, Protocol: "tcp", PodName: name, PodIP: "172.16.5.9"}}); err == nil {
+					pm.CloseHostports(name)
+				}
+			}
+		case "pm_close":
+			// DEL requests of pods without host ports
+			for k := 0; k < 6; k++ {
+				pm.CloseHostports(fmt.Sprintf("plain%d-%d_ns", wi, k))
 			}
 		case "pm_setup":
 			_ = pm.SetupPortMapping([]k8s.Port{{HostPort: int32(31000 + wi), ContainerPort: 80, Protocol: "tcp", PodName: fmt.Sprintf("pmpod%d_ns", wi), PodIP: "172.16.5.9"}})
